@@ -12,6 +12,14 @@ returns a shape tag and a message.
                                      identified by (batch, position); priority order is
                                      the lexicographic order on those)
   rank-order / rank-pick             the job goes to a free worker of minimal score
+  worse-ranked-peer-preferred        … also when that worker is free by the dispatcher's bookkeeping but momentarily
+                                     not receiving on its job channel while a worse-ranked one is: the dispatcher
+                                     waits for the best-ranked free worker (or its exit)
+  peer-record-lost                   a connected peer's score changes only through results that peer itself reports
+                                     (however many other peers connect and go in between); `Order` on the ranking
+                                     alone lists a peer whose own history gives the better score first
+  score-move                         a result of a live batch moves the reporter's score as specified (OK −1, failure +1,
+                                     disconnect → default, cancellation none; clamped)
   hard-timeout-ignored               a result processed after the hard deadline ends the batch
   idle-timeout-despite-progress      an idle timeout only a full ProgressTimeout after the last successful result
   request-never-issued-with-peer-available
@@ -38,6 +46,9 @@ inductive Obs where
   | progBatch (b : Nat)                       -- batch b was submitted with a ProgressTimeout
   | wake (b g : Nat)                          -- the idle timer armed for b's g-th idle window fired (window 1 starts at
                                               -- submission, window k+1 at the k-th successful result of the batch)
+  | scoreAfter (p sc : Nat)                   -- the ranking's score of p once the result p has just reported is processed
+  | notReceiving (ps : List Nat)              -- during the offer that follows, these free workers are not (yet) receiving
+                                              -- on their job channels; every other free worker is parked at its channel
 deriving Repr
 
 structure OSt where
@@ -54,11 +65,23 @@ structure OSt where
   conn      : List Nat := []          -- addresses of the peers that are connected (their worker has not exited)
   prog      : List Nat := []          -- batches with a ProgressTimeout
   lastWake  : Option (Nat × Nat) := none
+  notRecv   : List Nat := []          -- free workers that are momentarily not receiving during the current offer
+  score     : List (Nat × Nat) := [] -- connected peers: the score the ranking last showed for them
+  expect    : Option (Nat × Nat) := none   -- (p, score the result p has just reported must leave p with)
 deriving Repr
 
 def reqLt (a b : Req) : Bool := a.1 < b.1 || (a.1 == b.1 && a.2 < b.2)
 
 def hasVerdict (o : OSt) (b : Nat) : Bool := o.verd.any (fun x => x.1 == b)
+
+def setSeen (l : List (Nat × Nat)) (p v : Nat) : List (Nat × Nat) := (p, v) :: l.filter (fun x => !(x.1 == p))
+
+/-- how a processed result of a live batch moves the reporter's score (peer_rank.go Reward / Punish / ResetRanking) -/
+def movedScore (v : Nat) : Err → Nat
+  | .ok => if v = Gen.Dispatcher.bestScore then v else v - 1
+  | .canceled => v
+  | .disconnected => Gen.Dispatcher.defaultScore
+  | _ => if v = Gen.Dispatcher.worstScore then v else v + 1
 
 def rangeReqs (b : Nat) : Nat → List Req
   | 0 => []
@@ -77,6 +100,7 @@ def obsStep (o : OSt) : Obs → OSt × List Fail
               queued := if o.quit then o.queued else o.queued ++ rangeReqs b n }, [])
   | .progBatch b => ({ o with prog := b :: o.prog }, [])
   | .wake b g => ({ o with lastWake := some (b, g) }, [])
+  | .notReceiving ps => ({ o with notRecv := ps }, [])
   | .verdict b v =>
     -- "a batch fails with an idle timeout only if no request finished within the window": in the driver's clock
     -- the timer of window g fires a full ProgressTimeout after window g began and the current window's own timer
@@ -99,10 +123,21 @@ def obsStep (o : OSt) : Obs → OSt × List Fail
   | .order l =>
     let f : List Fail := if nondecreasing (l.map (·.2.1)) then [] else
       [("rank-order", "free workers were not ordered by score")]
-    ({ o with lastOrder := l }, f)
+    -- "a better record" is something a peer keeps: between two looks at a connected peer's score nothing but that
+    -- peer's own results (each followed by its own look, `scoreAfter`) may have changed it
+    let lost := l.filterMap (fun (p, sc, live) =>
+      match o.score.lookup p with
+      | some v => if live && o.conn.contains p && v != sc then some (p, v, sc) else none
+      | none => none)
+    let f2 : List Fail := match lost with
+      | [] => []
+      | (p, v, sc) :: _ => [("peer-record-lost", s!"the ranking showed score {v} for connected peer {p} when it last looked and shows {sc} now, although peer {p} reported no result in between")]
+    let seen := l.foldl (fun acc (p, sc, live) => if live && o.conn.contains p then setSeen acc p sc else acc) o.score
+    ({ o with lastOrder := l, notRecv := [], score := seen }, f ++ f2)
   | .exited p =>
     ({ o with lastOrder := o.lastOrder.map (fun x => if x.1 == p then (x.1, x.2.1, false) else x),
               conn := o.conn.filter (fun x => !(x == p)),
+              score := o.score.filter (fun x => !(x.1 == p)),   -- no claim across a disconnect
               held := o.held.filter (fun x => !(x.1 == p)) }, [])
   | .connected p =>
     ({ o with conn := p :: o.conn.filter (fun x => !(x == p)),
@@ -134,22 +169,40 @@ def obsStep (o : OSt) : Obs → OSt × List Fail
     let f3 : List Fail :=
       match live.find? (fun x => x.1 == p) with
       | none => [("rank-pick", s!"job given to worker {p} which was not among the free workers")]
-      | some (_, sc, _) => if live.all (fun x => decide (sc ≤ x.2.1)) then [] else
-          [("rank-pick", s!"job given to worker {p} (score {sc}) although a better-ranked worker was free")]
+      | some (_, sc, _) =>
+        -- "preferring peers with a better record": the job goes to a free worker of minimal score among ALL
+        -- free workers.  A better-ranked free worker that is momentarily not at its job channel is still the one
+        -- the request is due to: the dispatcher waits for it (or for its exit)
+        match live.find? (fun x => decide (x.2.1 < sc)) with
+        | none => []
+        | some (q, sq, _) =>
+          if o.notRecv.contains q then
+            [("worse-ranked-peer-preferred", s!"job given to worker {p} (score {sc}) because the better-ranked free worker {q} (score {sq}) was momentarily not receiving on its job channel; the dispatcher must wait for the best-ranked free worker or its exit")]
+          else
+            [("rank-pick", s!"job given to worker {p} (score {sc}) although a better-ranked worker was free")]
     ({ o with idxOf := if o.idxOf.any (fun x => x.1 == r) then o.idxOf else (r, idx) :: o.idxOf,
               queued := o.queued.filter (fun q => !(q == r)),
               held := (p, idx, r) :: o.held.filter (fun x => !(x.1 == p)),
-              lastOrder := o.lastOrder.filter (fun x => !(x.1 == p)) }, f1 ++ f2 ++ f3)
+              lastOrder := o.lastOrder.filter (fun x => !(x.1 == p)), notRecv := [] }, f1 ++ f2 ++ f3)
   | .result p idx e =>
     match o.held.find? (fun x => x.1 == p) with
     | none => (o, [("result-unknown", s!"worker {p} reported without holding a job")])
     | some (_, i, r) =>
       let f : List Fail := if i == idx then [] else [("result-unknown", s!"worker {p} reported job {idx}, held {i}")]
-      let o1 := { o with held := o.held.filter (fun x => !(x.1 == p)), lastRes := some r.1 }
+      -- a result for a batch that still has no verdict moves the reporter's score as specified; one for a batch
+      -- that has ended is discarded and moves nothing
+      let exp : Option (Nat × Nat) := (o.score.lookup p).map (fun v => (p, if hasVerdict o r.1 then v else movedScore v e))
+      let o1 := { o with held := o.held.filter (fun x => !(x.1 == p)), lastRes := some r.1, expect := exp }
       match e with
       | .ok => ({ o1 with okReq := r :: o1.okReq }, f)
       | .canceled => (o1, f)
       | _ => ({ o1 with queued := o1.queued ++ [r] }, f)
+  | .scoreAfter p sc =>
+    let f : List Fail := match o.expect with
+      | some (q, v) => if q == p && v != sc then
+          [("score-move", s!"after the result it reported, peer {p}'s score is {sc}; its record so far requires {v}")] else []
+      | none => []
+    ({ o with expect := none, score := if o.conn.contains p then setSeen o.score p sc else o.score }, f)
   | .quit => ({ o with quit := true }, [])
   | .hardPassed b => ({ o with hardDue := b :: o.hardDue }, [])
   | .resultDone =>
@@ -180,6 +233,49 @@ def obsOfOuts (s : State) : List Out → List Obs
   | .verdict b v :: r => .verdict b v :: obsOfOuts s r
   | _ :: r => obsOfOuts s r
 
+/-! ### the ranking driven directly (`query.NewPeerRanking`)
+
+`AddPeer` / `Reward` / `Punish` / `ResetRanking` in any order on a handful of long-lived addresses and on hundreds of
+short-lived ones, then `Order` on a few of them.  The oracle does not look at the model's score table: the score a peer
+is due is computed from the calls that name that peer alone (`ownScore`), and `Order` must list its argument by it. -/
+
+/-- one call naming the peer, on its own entry (`none`: the ranking does not know the peer) -/
+def ownStep (sc : Option Nat) : RankOp → Option Nat
+  | .add _ => some (sc.getD Gen.Dispatcher.defaultScore)
+  | .reward _ => sc.map (fun v => if v = Gen.Dispatcher.bestScore then v else v - 1)
+  | .punish _ => sc.map (fun v => if v = Gen.Dispatcher.worstScore then v else v + 1)
+  | .reset _ => sc.map (fun _ => Gen.Dispatcher.defaultScore)
+
+def ownEntry (hist : List RankOp) (p : Nat) : Option Nat :=
+  (hist.filter (fun o => o.addr == p)).foldl ownStep none
+
+/-- the score peer `p`'s own history gives it; a peer the ranking was never told about counts as default -/
+def ownScore (hist : List RankOp) (p : Nat) : Nat := (ownEntry hist p).getD Gen.Dispatcher.defaultScore
+
+inductive RkObs where
+  | op (o : RankOp)
+  | order (inp out : List Nat)
+deriving Repr
+
+def isPerm (a b : List Nat) : Bool := a.length == b.length && a.all (fun x => a.count x == b.count x)
+
+/-- first adjacent pair of `out` that is out of order by the peers' own histories -/
+def firstInversion (hist : List RankOp) : List Nat → Option (Nat × Nat)
+  | [] => none
+  | [_] => none
+  | a :: b :: rest => if ownScore hist b < ownScore hist a then some (a, b) else firstInversion hist (b :: rest)
+
+def rankObsStep (hist : List RankOp) : RkObs → List RankOp × List Fail
+  | .op o => (hist ++ [o], [])
+  | .order inp out =>
+    let f1 : List Fail := if isPerm inp out then [] else
+      [("rank-order", s!"Order returned {out} for {inp}: not a rearrangement of its argument")]
+    let f2 : List Fail := match firstInversion hist out with
+      | none => []
+      | some (a, b) =>
+        [("peer-record-lost", s!"Order lists peer {a} before peer {b} although their own histories of rewards and punishments give {a} score {ownScore hist a} and {b} score {ownScore hist b}: a record was lost or not kept")]
+    (hist, f1 ++ f2)
+
 /-! ### runs with the real worker (`query/worker.go`) over scripted peers
 
 Not scheduled deterministically, so there is no model comparison; the clause
@@ -194,6 +290,10 @@ inductive RObs where
       -- `none` = no verdict before the deadline; gap = µs between the batch's last successful response (or its
       -- submission) and the verdict; pt = its ProgressTimeout in µs (0: none, or a short hard Timeout is also set)
   | stop (returned : Bool)
+  | pick (what : String) (okA okB : Nat) (to : String)
+      -- a one-request batch was handed in while peers A and B were both free by the dispatcher's bookkeeping (neither
+      -- held a job: every earlier batch had its verdict); A had answered okA requests, B okB, neither had failed
+      -- any; `to` = which peer's request counter moved
   | peerNotTaken
   | final (counts : List (Nat × Nat))
 deriving Repr
@@ -211,6 +311,13 @@ def realStep : RObs → List Fail
       [("nil-without-all-ok", s!"batch {i} reported success with {fin} of {n} requests answered")] else []) ++
     (if v == .res .timeout && pt > 0 && gap < pt then
       [("idle-timeout-despite-progress", s!"batch {i} got an idle timeout {gap} µs after its last successful response, ProgressTimeout is {pt} µs")] else [])
+  | .pick what okA okB to =>
+    -- "preferring peers with a better record": more answered requests and no failure is the better record
+    -- (C12_score_moves); a request that is due while both are free goes to that peer, also when its worker has
+    -- only just delivered a result and is not back at its job channel yet
+    if okA > okB && to != "A" then
+      [("worse-ranked-peer-preferred", s!"({what}) the request went to peer {to} although peer A, free as well, has the better record ({okA} answered against {okB}); the dispatcher must wait for the best-ranked free worker or its exit")]
+    else []
   | .stop false => [("shutdown-blocked", "Stop did not return")]
   | .stop true => []
   | .peerNotTaken => [("hang", "the dispatcher did not take a newly connected peer")]
